@@ -437,6 +437,40 @@ def q5(e: Engine, rep: Report):
                   and 'self.queued' in ast.unparse(n.ast.iter) and any(
                       sc.kind == 'loop' and sc.ast is n.ast
                       for s in spawns for sc in s.scopes)]
+        def unpacked(x, fr):
+            # `a, b = self._helper(...)` with the helper inlined and
+            # returning a tuple display: the element x stands for, per
+            # return
+            defs = [s2 for s2 in g.of_kind('stmt')
+                    if s2.frame is fr and isinstance(s2.ast, ast.Assign) and
+                    len(s2.ast.targets) == 1 and
+                    isinstance(s2.ast.targets[0], (ast.Tuple, ast.List)) and
+                    any(isinstance(t, ast.Name) and t.id == x.id
+                        for t in s2.ast.targets[0].elts)]
+            stores = [y for y in walk_own(fr.ctx.func.node)
+                      if isinstance(y, ast.Name) and y.id == x.id and
+                      isinstance(y.ctx, ast.Store)]
+            if len({id(d.ast) for d in defs}) != 1 or len(stores) != 1 or \
+                    not isinstance(defs[0].ast.value, ast.Call):
+                return None
+            tg = defs[0].ast.targets[0]
+            i = [k for k, t in enumerate(tg.elts)
+                 if isinstance(t, ast.Name) and t.id == x.id][0]
+            vals = common.values_of(g, defs[0].ast.value, fr)
+            out = []
+            for v, f2 in vals:
+                if not (isinstance(v, ast.Tuple) and
+                        len(v.elts) == len(tg.elts)):
+                    return None
+                out.append((v.elts[i], f2))
+            return out
+
+        def stmt_of(x, fr):
+            for s2 in g.of_kind('stmt'):
+                if s2.frame is fr and any(y is x for y in ast.walk(s2.ast)):
+                    return s2
+            return None
+
         def iter_path(n):
             # what is iterated, seen through helpers that hand it on /
             # back; a helper with several returns may also hand back an
@@ -445,6 +479,23 @@ def q5(e: Engine, rep: Report):
                 if depth > 6:
                     return {None}
                 x, fr = common.origin(g, x, fr, follow_locals=False)
+                if isinstance(x, ast.Name):
+                    up = unpacked(x, fr)
+                    if up is not None:
+                        out = set()
+                        for v, f2 in up:
+                            out |= walk(v, f2, depth + 1)
+                        return out
+                if isinstance(x, ast.Subscript) and \
+                        path_of(x.value, fr) == 'self.queued' and \
+                        isinstance(x.slice, ast.Slice) and \
+                        x.slice.lower is None and \
+                        x.slice.upper is not None and \
+                        stmt_of(x, fr) is not None:
+                    # a prefix slice handed back directly
+                    key = 'slice@%d' % id(x)
+                    snaps[key] = (ast.unparse(x.slice.upper), stmt_of(x, fr))
+                    return {key}
                 # an element-wise projection `[f(x) for x in xs]` of the
                 # list has one element per entry
                 if isinstance(x, (ast.ListComp, ast.GeneratorExp)) and \
@@ -495,6 +546,10 @@ def q5(e: Engine, rep: Report):
             # the kept part is the complement of the removed part
             for w in ws:
                 v = _queued_value(w)
+                if isinstance(v, ast.Name):
+                    up = unpacked(v, w.frame)
+                    if up is not None and len(up) == 1:
+                        v = up[0][0]
                 if upper is None:
                     ok = isinstance(v, ast.List) and not v.elts
                     what = 'the whole list was taken: the timetable is ' \
@@ -675,6 +730,46 @@ def q6(e: Engine, rep: Report):
     _wait_ready_part(e, rep, due_kind)
 
 
+def _takewhile_pred(val, frame):
+    """(entry parameter, test, names bound to the entry's timestamp) of the
+    predicate of a takewhile(PRED, self.queued) anywhere inside `val`: a
+    lambda, or a def nested in the same function whose body is an optional
+    `ts, id = entry` followed by `return <test>`"""
+    for v in ast.walk(val):
+        if not (isinstance(v, ast.Call) and
+                ast.unparse(v.func).rpartition('.')[2] == 'takewhile' and
+                len(v.args) == 2 and
+                path_of(v.args[1], frame) == 'self.queued'):
+            continue
+        pr = v.args[0]
+        if isinstance(pr, ast.Lambda):
+            arg = pr.args.args[0].arg if pr.args.args else None
+            return arg, pr.body, set()
+        if isinstance(pr, ast.Name):
+            defs = [d for d in frame.ctx.func.node.body
+                    if isinstance(d, ast.FunctionDef) and d.name == pr.id]
+            if len(defs) != 1 or len(defs[0].args.args) != 1:
+                return None
+            arg = defs[0].args.args[0].arg
+            body = [st for st in defs[0].body
+                    if not (isinstance(st, ast.Expr) and
+                            isinstance(st.value, ast.Constant))]
+            ts = set()
+            if len(body) == 2 and isinstance(body[0], ast.Assign) and \
+                    isinstance(body[0].targets[0], ast.Tuple) and \
+                    isinstance(body[0].value, ast.Name) and \
+                    body[0].value.id == arg and \
+                    len(body[0].targets[0].elts) == 2 and \
+                    isinstance(body[0].targets[0].elts[0], ast.Name):
+                ts.add(body[0].targets[0].elts[0].id)
+                body = body[1:]
+            if len(body) == 1 and isinstance(body[0], ast.Return) and \
+                    body[0].value is not None:
+                return arg, body[0].value, ts
+        return None
+    return None
+
+
 def _takewhile_cut(e: Engine, rep: Report, g, ctx, where, now):
     """The due prefix taken with takewhile(lambda entry: PRED, self.queued):
     PRED must compare the entry's timestamp (entry[0]) with `now`."""
@@ -682,17 +777,18 @@ def _takewhile_cut(e: Engine, rep: Report, g, ctx, where, now):
     for n in g.of_kind('stmt'):
         if not isinstance(n.ast, ast.Assign):
             continue
-        lam = _takewhile_of_queued(n.ast.value, n.frame)
-        if lam is None:
+        pred = _takewhile_pred(n.ast.value, n.frame)
+        if pred is None:
             continue
         rep.evaluations += 1
-        arg = lam.args.args[0].arg if lam.args.args else None
-        t = lam.body
+        arg, t, ts_names = pred
         k = None
         if isinstance(t, ast.Compare) and len(t.ops) == 1 and arg:
             l, r = t.left, t.comparators[0]
 
             def is_ts(x):
+                if isinstance(x, ast.Name) and x.id in ts_names:
+                    return True
                 return isinstance(x, ast.Subscript) and \
                     isinstance(x.value, ast.Name) and x.value.id == arg and \
                     isinstance(x.slice, ast.Constant) and x.slice.value == 0
